@@ -1,6 +1,7 @@
 (* C14 — property theorems only: each closed by [exact] of a lemma proved in Values/GateProofs.v. *)
-From Coq Require Import List String Bool ZArith.
-From Helm Require Import Values.Tree Values.Schema Values.Scope Values.Deps Values.Gate Values.GateProofs.
+From Coq Require Import List String Bool Arith ZArith.
+From Helm Require Import Common.Strs Values.Tree Values.Schema2 Values.Schema2Proofs Values.Schema Values.Scope Values.Deps
+  Values.Gate Values.GateProofs Gen.C14Compiler.
 Import ListNotations.
 Local Open Scope string_scope.
 
@@ -88,3 +89,378 @@ Example C14_install_ok_example :
   = ([KIsReachable; SRead; KGetCapabilities; KBuild; KBuild; KCreateNamespace; SCreate; KWait; SUpdate], Done).
 Proof. exact install_ok_example. Qed.
 Print Assumptions C14_install_ok_example.
+
+(* ====================================================================================== *)
+(* Round 4: schemas given as JSON documents ([SDoc d], Values/Schema2.v) - the larger keyword
+   family and the dialect.  Every theorem above is stated for any [schema], so it covers them;
+   below: what they say for a document, the default dialect, and what each keyword means.    *)
+
+(* A document accepts values exactly when the model of ValidateAgainstSingleSchema says VOk
+   (a violated constraint, a schema that does not compile, a document outside the model's
+   keyword family and exhausted fuel all count as "rejected"). *)
+Theorem C14_valid_doc : forall d v, valid (SDoc d) v = true <-> doc_verdict d v = VOk.
+Proof. exact valid_doc. Qed.
+Print Assumptions C14_valid_doc.
+
+(* The chart's own document does not accept the coalesced values: the gate fails naming it. *)
+Theorem C14_doc_rejected_here : forall c vals v d,
+  cschema c = Some (SDoc d) -> CoalesceValues c vals = Ok v -> doc_verdict d (VMap v) <> VOk ->
+  exists names, to_render_values c vals false = RVSchemaErr names /\ In (cname c) names.
+Proof. exact doc_rejected_here. Qed.
+Print Assumptions C14_doc_rejected_here.
+
+(* ... a kept subchart's document, on the table stored under its name / alias. *)
+Theorem C14_doc_rejected_below : forall c vals v sub sv d,
+  In sub (cdeps c) -> cschema sub = Some (SDoc d) -> CoalesceValues c vals = Ok v ->
+  mget (cname sub) v = Some (VMap sv) -> doc_verdict d (VMap sv) <> VOk ->
+  exists names, to_render_values c vals false = RVSchemaErr names /\ In (cname sub) names.
+Proof. exact doc_rejected_below. Qed.
+Print Assumptions C14_doc_rejected_below.
+
+(* End to end: the document of the processed chart rejects the final values => install fails
+   naming the chart, nothing stored, no mutating cluster call (same CRD side condition). *)
+Theorem C14_doc_nothing_sent_install : forall compat fl c vals c' v d,
+  process_dependencies compat c vals = Ok c' -> skip_schema fl = false ->
+  CoalesceValues c' vals = Ok v -> cschema c' = Some (SDoc d) -> doc_verdict d (VMap v) <> VOk ->
+  (has_crds c' = false \/ skip_crds fl = true \/ client_only fl = true \/ dry_run fl = true) ->
+  exists tr names, install_trace compat fl c vals = (tr, FailSchema names)
+                   /\ In (cname c') names /\ forallb (fun e => negb (mutating e)) tr = true.
+Proof. exact doc_install_nothing_sent. Qed.
+Print Assumptions C14_doc_nothing_sent_install.
+
+Theorem C14_doc_nothing_sent_upgrade : forall compat fl c vals c' v d,
+  process_dependencies compat c vals = Ok c' -> skip_schema fl = false ->
+  CoalesceValues c' vals = Ok v -> cschema c' = Some (SDoc d) -> doc_verdict d (VMap v) <> VOk ->
+  exists tr names, upgrade_trace compat fl c vals = (tr, FailSchema names)
+                   /\ In (cname c') names /\ forallb (fun e => negb (mutating e)) tr = true.
+Proof. exact doc_upgrade_nothing_sent. Qed.
+Print Assumptions C14_doc_nothing_sent_upgrade.
+
+(* Non-vacuity with a keyword of 2019-09/2020-12 and NO "$schema": subchart aliased "web", document
+   {type: object, dependentRequired: {tlsKey: [tlsCert]}}; user web.tlsKey without web.tlsCert. *)
+Example C14_doc_gate_example :
+  install_trace (fun _ _ => true) ex_flags ex_tls_top ex_tls_vals
+  = ([KIsReachable; SRead; KGetCapabilities], FailSchema ["web"])
+  /\ upgrade_trace (fun _ _ => true) ex_flags ex_tls_top ex_tls_vals
+     = ([KIsReachable; SRead; KGetCapabilities], FailSchema ["web"])
+  /\ snd (install_trace (fun _ _ => true) ex_flags ex_tls_top
+                        [("web", VMap [("tlsKey", VStr "k"); ("tlsCert", VStr "c")])]) = Done.
+Proof. exact doc_gate_example. Qed.
+Print Assumptions C14_doc_gate_example.
+
+(* ---------- the dialect ---------- *)
+
+(* A values.schema.json without "$schema" is compiled as draft 2020-12 ... *)
+Theorem C14_default_dialect_is_2020_12 : forall m v,
+  mget "$schema" m = None ->
+  dialect_of helm_default_draft (VMap m) = DialOk D2020
+  /\ doc_verdict (VMap m) v = run_with (DialOk D2020) (VMap m) v.
+Proof. exact default_dialect. Qed.
+Print Assumptions C14_default_dialect_is_2020_12.
+
+(* ... under which every modelled keyword is read (the full vocabulary) ... *)
+Theorem C14_full_vocabulary_2020 :
+  forallb (kw_active D2020)
+          (later_keywords ++ ["prefixItems"; "items"; "contains"; "const"; "enum"; "type"; "allOf"; "anyOf"; "oneOf"; "not";
+             "if"; "then"; "else"; "properties"; "additionalProperties"; "propertyNames"; "required"; "dependencies";
+             "minProperties"; "maxProperties"; "minItems"; "maxItems"; "uniqueItems"; "minimum"; "maximum";
+             "exclusiveMinimum"; "exclusiveMaximum"; "multipleOf"; "minLength"; "maxLength"; "$ref"])%list = true.
+Proof. exact full_vocabulary_2020. Qed.
+Print Assumptions C14_full_vocabulary_2020.
+
+(* ... while a draft-07 document has none of dependentRequired, dependentSchemas, minContains,
+   maxContains, $defs (as a keyword), prefixItems: the library does not read them. *)
+Theorem C14_draft7_ignores_later_keywords :
+  forallb (fun k => negb (kw_active D7 k)) (later_keywords ++ ["prefixItems"])%list = true.
+Proof. exact draft7_ignores_later_keywords. Qed.
+Print Assumptions C14_draft7_ignores_later_keywords.
+
+(* The default matters: {dependentRequired: {tlsKey: [tlsCert]}} without "$schema" rejects
+   {tlsKey: k}; the same bytes under a draft-07 default, or declaring draft-07, accept it. *)
+Example C14_default_draft_matters :
+  doc_verdict ex_dep_doc ex_dep_bad = VViolation /\ doc_verdict ex_dep_doc ex_dep_good = VOk
+  /\ run D7 ex_dep_doc ex_dep_bad = VOk
+  /\ doc_verdict (VMap [("$schema", VStr "http://json-schema.org/draft-07/schema#");
+                        ("dependentRequired", VMap [("tlsKey", VList [VStr "tlsCert"])])]) ex_dep_bad = VOk.
+Proof. exact default_draft_matters. Qed.
+Print Assumptions C14_default_draft_matters.
+
+Example C14_dialect_urls :
+  classify_schema_url "http://json-schema.org/draft-07/schema#" = DialOk D7
+  /\ classify_schema_url "http://json-schema.org/draft-07/schema" = DialOk D7
+  /\ classify_schema_url "https://json-schema.org/draft-07/schema#" = DialOk D7
+  /\ classify_schema_url "https://json-schema.org/draft/2019-09/schema" = DialOk D2019
+  /\ classify_schema_url "https://json-schema.org/draft/2020-12/schema" = DialOk D2020
+  /\ classify_schema_url "http://json-schema.org/draft/2020-12/schema#" = DialOk D2020
+  /\ classify_schema_url "https://json-schema.org/schema" = DialOk D2020
+  /\ classify_schema_url "http://json-schema.org/draft-04/schema#" = DialUnsupported
+  /\ classify_schema_url "http://example.com/my-dialect" = DialError.
+Proof. exact dialect_urls. Qed.
+Print Assumptions C14_dialect_urls.
+
+(* Translator table (Gen/C14Compiler.v, regenerated from /repo and the pinned library on every
+   run): the draft a schema without "$schema" is compiled with - the argument of a DefaultDraft
+   call in ValidateAgainstSingleSchema if there is one, else the library's newRoots() default -
+   is the model's. *)
+Theorem C14_default_draft_table :
+  effective_default C14Compiler.default_draft_call C14Compiler.library_roots_default C14Compiler.library_draft_latest
+  = Some helm_default_draft.
+Proof. reflexivity. Qed.
+Print Assumptions C14_default_draft_table.
+
+(* ... and Helm switches on no compiler option the model does not know (format / content /
+   vocabulary assertion, custom loaders or regexp engines). *)
+Theorem C14_compiler_options_table :
+  forallb (fun m => existsb (String.eqb m) known_compiler_methods) C14Compiler.compiler_methods = true
+  /\ C14Compiler.compiler_escapes = false.
+Proof. split; reflexivity. Qed.
+Print Assumptions C14_compiler_options_table.
+
+(* ---------- what the keywords mean (to be held against the JSON-Schema drafts) ---------- *)
+
+(* One schema object (2019-09 and later, or without "$ref"): valid iff every keyword group is. *)
+Theorem C14_schema_object : forall dr m here self follow child names v,
+  (ge2019 dr = true \/ forall r, kw dr m "$ref" <> Some (VStr r)) ->
+  (step dr m here self follow child names v = Some true <->
+   p_type dr m v = true /\ p_const dr m v = true /\ p_enum dr m v = true
+   /\ a_ref dr m follow = Some true
+   /\ by_kind dr m here self child names v = Some true
+   /\ a_not dr m here self = Some true /\ a_all_of dr m here self = Some true
+   /\ a_any_of dr m here self = Some true /\ a_one_of dr m here self = Some true
+   /\ a_if dr m here self = Some true).
+Proof. exact step_true_iff. Qed.
+Print Assumptions C14_schema_object.
+
+(* draft-07: next to "$ref" only "const" is looked at (the library's behaviour; the draft says
+   all other properties are ignored). *)
+Theorem C14_ref_siblings_draft7 : forall m here self follow child names v r,
+  kw D7 m "$ref" = Some (VStr r) ->
+  step D7 m here self follow child names v = oand (Some (p_const D7 m v)) (a_ref D7 m follow).
+Proof. exact step_draft7_ref. Qed.
+Print Assumptions C14_ref_siblings_draft7.
+
+Theorem C14_object_keywords : forall dr m here self child names o,
+  by_kind dr m here self child names (VMap o) = Some true <->
+  p_prop_count dr m o = true /\ p_required dr m o = true /\ p_dependencies_lists dr m o = true
+  /\ a_dep_schemas dr m here self "dependencies" o = Some true
+  /\ a_properties dr m here child o = Some true
+  /\ a_property_names dr m here names o = Some true
+  /\ a_dep_schemas dr m here self "dependentSchemas" o = Some true
+  /\ p_dependent_required dr m o = true.
+Proof. exact by_kind_object_true_iff. Qed.
+Print Assumptions C14_object_keywords.
+
+Theorem C14_array_keywords : forall dr m here self child names a,
+  by_kind dr m here self child names (VList a) = Some true <->
+  p_item_count dr m a = true /\ p_unique dr m a = true
+  /\ a_items dr m here child a = Some true /\ a_contains dr m here child a = Some true.
+Proof. exact by_kind_array_true_iff. Qed.
+Print Assumptions C14_array_keywords.
+
+(* dependentRequired: valid iff for every listed key present in the object all its dependents
+   are present; not read under draft-07. *)
+Theorem C14_kw_dependentRequired : forall dr m o deps,
+  kw dr m "dependentRequired" = Some (VMap deps) ->
+  (p_dependent_required dr m o = true <->
+   forall k ds, In (k, VList ds) deps -> mhas k o = true -> forall n, In (VStr n) ds -> mhas n o = true).
+Proof. exact p_dependent_required_spec. Qed.
+Print Assumptions C14_kw_dependentRequired.
+
+Theorem C14_kw_dependentRequired_draft7 : forall m o, p_dependent_required D7 m o = true.
+Proof. exact p_dependent_required_draft7. Qed.
+Print Assumptions C14_kw_dependentRequired_draft7.
+
+(* dependentSchemas (k = "dependentSchemas"; also the schema entries of "dependencies"): the
+   subschema of every key present in the object applies to the whole object. *)
+Theorem C14_kw_dependentSchemas : forall dr m here self k o deps,
+  kw dr m k = Some (VMap deps) ->
+  (a_dep_schemas dr m here self k o = Some true <->
+   forall p s, In (p, s) deps -> (forall l, s <> VList l) -> mhas p o = true ->
+               self (at_kw2 here k p) s = Some true).
+Proof. exact a_dep_schemas_true_iff. Qed.
+Print Assumptions C14_kw_dependentSchemas.
+
+Theorem C14_kw_dependentSchemas_draft7 : forall m here self o,
+  a_dep_schemas D7 m here self "dependentSchemas" o = Some true.
+Proof. exact a_dep_schemas_draft7. Qed.
+Print Assumptions C14_kw_dependentSchemas_draft7.
+
+Theorem C14_kw_required : forall dr m o l,
+  kw dr m "required" = Some (VList l) ->
+  (p_required dr m o = true <-> forall n, In (VStr n) l -> mhas n o = true).
+Proof. exact p_required_spec. Qed.
+Print Assumptions C14_kw_required.
+
+(* properties / additionalProperties *)
+Theorem C14_kw_properties : forall dr m here child o,
+  a_properties dr m here child o = Some true <->
+  forall k x, In (k, x) o -> a_member dr m here child k x = Some true.
+Proof. exact a_properties_true_iff. Qed.
+Print Assumptions C14_kw_properties.
+
+Theorem C14_kw_properties_declared : forall dr m here child ps k x sp,
+  kw dr m "properties" = Some (VMap ps) -> mget k ps = Some sp ->
+  a_member dr m here child k x = child (at_kw2 here "properties" k) sp x.
+Proof. exact a_member_declared. Qed.
+Print Assumptions C14_kw_properties_declared.
+
+Theorem C14_kw_additionalProperties : forall dr m here child k x,
+  (forall ps, kw dr m "properties" = Some (VMap ps) -> mget k ps = None) ->
+  a_member dr m here child k x =
+  match kw dr m "additionalProperties" with
+  | Some sa => child (at_kw here "additionalProperties") sa x
+  | None => Some true
+  end.
+Proof. exact a_member_additional. Qed.
+Print Assumptions C14_kw_additionalProperties.
+
+Theorem C14_kw_propertyNames : forall dr m here names o sn,
+  kw dr m "propertyNames" = Some sn ->
+  (a_property_names dr m here names o = Some true <->
+   forall k x, In (k, x) o -> names (at_kw here "propertyNames") sn k = Some true).
+Proof. exact a_property_names_true_iff. Qed.
+Print Assumptions C14_kw_propertyNames.
+
+Theorem C14_kw_property_count : forall dr m o,
+  p_prop_count dr m o = true <->
+  (forall n, int_kw dr m "minProperties" = Some n -> (n <= Z.of_nat (List.length o))%Z)
+  /\ (forall n, int_kw dr m "maxProperties" = Some n -> (Z.of_nat (List.length o) <= n)%Z).
+Proof. exact p_prop_count_spec. Qed.
+Print Assumptions C14_kw_property_count.
+
+(* prefixItems + items (2020-12): element i against prefixItems[i] if there is one, else "items" *)
+Theorem C14_kw_prefixItems : forall m here child a,
+  a_items D2020 m here child a = Some true <->
+  forall i x, nth_error a i = Some x ->
+    match nth_error (match kw D2020 m "prefixItems" with Some (VList ps) => ps | _ => [] end) i with
+    | Some sp => child (at_idx here "prefixItems" i) sp x
+    | None => match kw D2020 m "items" with
+              | Some si => child (at_kw here "items") si x
+              | None => Some true
+              end
+    end = Some true.
+Proof. exact a_items_2020_true_iff. Qed.
+Print Assumptions C14_kw_prefixItems.
+
+(* before 2020-12: prefixItems is not read, "items" (schema form) applies to every element *)
+Theorem C14_kw_items_before_2020 : forall dr m here child a si,
+  ge2020 dr = false -> kw dr m "items" = Some si -> (forall l, si <> VList l) ->
+  (a_items dr m here child a = Some true <-> forall x, In x a -> child (at_kw here "items") si x = Some true).
+Proof. exact a_items_before_2020_true_iff. Qed.
+Print Assumptions C14_kw_items_before_2020.
+
+Theorem C14_kw_prefixItems_before_2020 : forall dr m, ge2020 dr = false -> kw dr m "prefixItems" = None.
+Proof. exact prefix_items_ignored_before_2020. Qed.
+Print Assumptions C14_kw_prefixItems_before_2020.
+
+(* contains / minContains / maxContains: c = number of elements the subschema accepts;
+   minContains (1 when absent) <= c <= maxContains; draft-07 reads neither bound. *)
+Theorem C14_kw_contains : forall dr m here child a sc b,
+  kw dr m "contains" = Some sc ->
+  a_contains dr m here child a = Some b ->
+  b = p_contains_count dr m (count_true (map (fun x => child (at_kw here "contains") sc x) a)).
+Proof. exact a_contains_spec. Qed.
+Print Assumptions C14_kw_contains.
+
+Theorem C14_kw_contains_bounds : forall dr m c,
+  p_contains_count dr m c = true <->
+  match int_kw dr m "minContains" with Some n => (n <= Z.of_nat c)%Z | None => (1 <= c)%nat end
+  /\ match int_kw dr m "maxContains" with Some n => (Z.of_nat c <= n)%Z | None => True end.
+Proof. exact p_contains_count_spec. Qed.
+Print Assumptions C14_kw_contains_bounds.
+
+Theorem C14_kw_contains_draft7 : forall m c, p_contains_count D7 m c = (1 <=? c)%nat.
+Proof. exact p_contains_count_draft7. Qed.
+Print Assumptions C14_kw_contains_draft7.
+
+Theorem C14_kw_item_count : forall dr m a,
+  p_item_count dr m a = true <->
+  (forall n, int_kw dr m "minItems" = Some n -> (n <= Z.of_nat (List.length a))%Z)
+  /\ (forall n, int_kw dr m "maxItems" = Some n -> (Z.of_nat (List.length a) <= n)%Z).
+Proof. exact p_item_count_spec. Qed.
+Print Assumptions C14_kw_item_count.
+
+(* uniqueItems fails iff two elements at different positions are equal as JSON values *)
+Theorem C14_kw_uniqueItems : forall l,
+  has_dup l = true <->
+  exists i j x y, (i < j)%nat /\ nth_error l i = Some x /\ nth_error l j = Some y /\ json_eq x y = true.
+Proof. exact has_dup_spec. Qed.
+Print Assumptions C14_kw_uniqueItems.
+
+(* allOf / anyOf / oneOf / not / if-then-else *)
+Theorem C14_kw_allOf : forall dr m here self l,
+  kw dr m "allOf" = Some (VList l) ->
+  (a_all_of dr m here self = Some true <->
+   forall i s, nth_error l i = Some s -> self (at_idx here "allOf" i) s = Some true).
+Proof. exact a_all_of_true_iff. Qed.
+Print Assumptions C14_kw_allOf.
+
+Theorem C14_kw_anyOf : forall dr m here self s0 l b,
+  kw dr m "anyOf" = Some (VList (s0 :: l)) ->
+  a_any_of dr m here self = Some b ->
+  (b = true <-> exists i s, nth_error (s0 :: l) i = Some s /\ self (at_idx here "anyOf" i) s = Some true).
+Proof. exact a_any_of_spec. Qed.
+Print Assumptions C14_kw_anyOf.
+
+Theorem C14_kw_oneOf : forall dr m here self s0 l b,
+  kw dr m "oneOf" = Some (VList (s0 :: l)) ->
+  a_one_of dr m here self = Some b ->
+  b = (count_true (mapi_from 0 (fun i s => self (at_idx here "oneOf" i) s) (s0 :: l)) =? 1)%nat.
+Proof. exact a_one_of_spec. Qed.
+Print Assumptions C14_kw_oneOf.
+
+Theorem C14_kw_not : forall dr m here self s,
+  kw dr m "not" = Some s -> a_not dr m here self = option_map negb (self (at_kw here "not") s).
+Proof. exact a_not_spec. Qed.
+Print Assumptions C14_kw_not.
+
+Theorem C14_kw_if : forall dr m here self s,
+  kw dr m "if" = Some s ->
+  a_if dr m here self =
+  match self (at_kw here "if") s with
+  | Some true => a_self_kw dr m here self "then"
+  | Some false => a_self_kw dr m here self "else"
+  | None => None
+  end.
+Proof. exact a_if_spec. Qed.
+Print Assumptions C14_kw_if.
+
+(* the recursion: boolean and empty schemas, the cycle check, one unfolding step *)
+Theorem C14_ev_unfold : forall root dr f seen p k x m v,
+  ptr_mem p seen = false ->
+  ev root dr (S f) seen p (VMap ((k, x) :: m)) v =
+  step dr ((k, x) :: m) p
+       (fun q s' => ev root dr f (p :: seen) q s' v)
+       (fun q => match lookup_ptr root q with Some t => ev root dr f (p :: seen) q t v | None => None end)
+       (fun q s' y => ev root dr f [] q s' y)
+       (fun q s' n => ev root dr f [] q s' (VStr n))
+       v.
+Proof. exact ev_unfold. Qed.
+Print Assumptions C14_ev_unfold.
+
+Theorem C14_ev_cycle : forall root dr f seen p k x m v,
+  ptr_mem p seen = true -> ev root dr (S f) seen p (VMap ((k, x) :: m)) v = Some false.
+Proof. exact ev_cycle. Qed.
+Print Assumptions C14_ev_cycle.
+
+(* numbers as rationals, "integer" for 1.0, equality across spellings, code points *)
+Theorem C14_number_order : forall ma ea mb eb e,
+  (e <= ea)%Z -> (e <= eb)%Z ->
+  dec_cmp (ma, ea) (mb, eb) = Z.compare (ma * 10 ^ (ea - e))%Z (mb * 10 ^ (eb - e))%Z.
+Proof. exact dec_cmp_scale. Qed.
+Print Assumptions C14_number_order.
+
+Example C14_number_examples :
+  type_matches "integer" (VFlt "1.0") = true /\ type_matches "integer" (VFlt "1e+21") = true
+  /\ type_matches "integer" (VFlt "1.5") = false /\ type_matches "number" (VFlt "1.5") = true
+  /\ json_eq (VNum 1) (VFlt "1.0") = true /\ json_eq (VFlt "1.50") (VFlt "15e-1") = true
+  /\ json_eq (VNum 1) (VStr "1") = false
+  /\ dec_multiple (15, -1)%Z (5, -1)%Z = true /\ dec_multiple (17, -1)%Z (5, -1)%Z = false.
+Proof. exact number_examples. Qed.
+Print Assumptions C14_number_examples.
+
+Example C14_code_points :
+  rune_count (bs [104; 195; 169; 195; 169]) = 3%nat /\ rune_count (bs [230; 151; 165; 230; 156; 172]) = 2%nat
+  /\ rune_count "abc" = 3%nat /\ rune_count "" = 0%nat.
+Proof. exact rune_count_examples. Qed.
+Print Assumptions C14_code_points.
